@@ -5,7 +5,7 @@ from typing import Any, Dict, List, Optional, Tuple
 
 from qv import bp, gen, model as M, snap, memo_shadow
 from qv.acc import Acc
-from qv.kinds import DEFAULT_GLOBAL
+from qv.kinds import DEFAULT_GLOBAL, discover
 from qv.props import common, c05
 
 HANDLES_MEMO = True
@@ -107,6 +107,15 @@ def gen_case(rng: random.Random, cls: str) -> Dict[str, Any]:
         events.append({"ev": "flatten"})
         maybe_observe(0.5)
         maybe_settings(0.2)
+    if (will_unroll or will_flatten) and rng.random() < 0.4:
+        # keep building on the unrolled / flattened circuit (no measurements: the circuit returned by apply_modifiers has a
+        # fresh acquisition registry); the reference model does not follow these, the twin-run differential does
+        for _ in range(rng.randint(1, 3)):
+            events.append({"ev": "late_add", "step": {"k": rng.choice(["Rx180", "Wait", "Reset", "Barrier", "CPhase", "Ry90"]),
+                                                      "q": rng.sample(range(4), 2), "dur": rng.choice([None, 1, 3])}})
+            maybe_observe(0.5)
+        maybe_settings(0.2)
+        maybe_observe(0.5)
     settings = prog["settings"]
     settings["glob"] = {}
     return {"class": cls, "top_reps": prog["circuit"].get("reps", 1), "settings": settings, "events": events}
@@ -191,6 +200,13 @@ class Run:
         elif kind == "flatten":
             self.circuit = self.circuit.flatten()
             self.phase = "flattened"
+            self.model_ok = False
+        elif kind == "late_add":
+            step = dict(e["step"])
+            info = discover()[step["k"]]
+            if info["arity"] == 1:
+                step["q"] = step["q"][:1]
+            self.circuit.add(bp.make_op(step, self.ctx, [self.built.top]))
             self.model_ok = False
         else:
             raise ValueError(kind)
@@ -510,10 +526,7 @@ def run_shard(shard: Dict[str, Any]) -> Acc:
         acc.hist("class", cls)
         acc.hist("events", len(hist["events"]) // 5 * 5)
         acc.case(bp.phash(hist), nontrivial(hist["events"]), sample=hist if i < 40 else None)
-        try:
-            check_history(hist, acc)
-        except RecursionError:
-            acc.count("recursion_inconclusive")
+        common.guarded(acc, check_history, hist, acc, case={"history": hist})
     return acc
 
 
